@@ -571,6 +571,38 @@ def install(it):
         return False
     reg("array_equal", np_array_equal)
 
+    def np_allclose(it_, ctx, a, b, rtol=Fraction(1, 100000), atol=Fraction(1, 10**8), **kw):
+        """all(|a - b| <= atol + rtol |b|) element-wise; shapes that do not broadcast raise"""
+        if isinstance(a, (list, tuple)):
+            a = vec_from_nested(a)
+        if isinstance(b, (list, tuple)):
+            b = vec_from_nested(b)
+        f = lambda x, y: sc_isclose(x, y, rtol, atol)
+        if isinstance(a, Vec) and isinstance(b, Vec):
+            if a.shape != b.shape and 1 not in (len(a.data), len(b.data)):
+                raise_("ValueError", "operands could not be broadcast together")
+            if a.shape != b.shape:
+                raise Unsupported("np.allclose with broadcasting")
+            return z_and(*[f(x, y) for x, y in zip(a.data, b.data)]) if a.data else True
+        if is_arr(a) and is_arr(b):
+            a2, b2 = to_symarr(a), to_symarr(b)
+            if not ctx.branch(num_cmp("==", a2.n, b2.n)):
+                if ctx.branch(z_or(num_cmp("==", a2.n, 1), num_cmp("==", b2.n, 1))):
+                    raise Unsupported("np.allclose with broadcasting")
+                raise_("ValueError", "operands could not be broadcast together")
+            ok = ctx.fresh("allclose", z3.BoolSort())
+            k = ctx.fresh("k_ac", I)
+            ctx.assume(z3.Implies(ok, z3.ForAll([k], z3.Implies(z3.And(k >= 0, k < lift(a2.n)), lift(f(a2.elem(k), b2.elem(k)))))))
+            w = ctx.fresh("w_ac", I)
+            ctx.assume(z3.Implies(z3.Not(ok), z3.And(w >= 0, w < lift(a2.n), z3.Not(lift(f(a2.elem(w), b2.elem(w)))))))
+            return ok
+        if is_arr(a) or is_arr(b):
+            arr, sc, left = (a, b, True) if is_arr(a) else (b, a, False)
+            m = map_arr(arr, (lambda x: f(x, sc)) if left else (lambda y: f(sc, y)), "bool")
+            return it_.call(G["all"], [m], {}, ctx)
+        return f(a, b)
+    reg("allclose", np_allclose)
+
     def np_isscalar(it_, ctx, x):
         return is_scalar(x) or isinstance(x, str)
     reg("isscalar", np_isscalar)
